@@ -286,6 +286,19 @@ def enum_edges(body, field, variant_name):
         truth = (variant_name in cv) == cs.fn.endswith("::eq")
         tr, fl = call_true_false_edges(body, cs)
         removed += fl if truth else tr
+    # `x.field.is_some()` / `is_none()` / `is_ok()` / `is_err()` for the Option/Result variants
+    if variant_name in ("Some", "None", "Ok", "Err"):
+        from .flow import arg_origins as _ao
+        for cs in body.calls:
+            m = (cs.fn or "").rsplit("::", 1)[-1]
+            if m not in ("is_some", "is_none", "is_ok", "is_err") or not cs.args or cs.bb not in body.live_blocks():
+                continue
+            if field not in _ao(cs, 0).fields:
+                continue
+            tests += 1
+            truth = {"is_some": variant_name == "Some", "is_none": variant_name == "None", "is_ok": variant_name == "Ok", "is_err": variant_name == "Err"}[m]
+            tr, fl = call_true_false_edges(body, cs)
+            removed += fl if truth else tr
     return removed, tests
 
 
